@@ -193,6 +193,14 @@ inline Sym sqrt(const Sym& a) { return a.is_const() ? Sym(std::sqrt(a.c)) : un("
 #endif
 inline Sym asin(const Sym& a) { return a.is_const() ? Sym(std::asin(a.c)) : un("asin", a); }
 inline Sym acos(const Sym& a) { return a.is_const() ? Sym(std::acos(a.c)) : un("acos", a); }
+inline Sym atan2(const Sym& y, const Sym& x) {
+  if (y.is_const() && x.is_const()) return Sym(std::atan2(y.c, x.c));
+  return Sym::node("(uf_atan2 " + y.term() + " " + x.term() + ")");
+}
+template <class T, class = typename std::enable_if<std::is_arithmetic<T>::value>::type>
+inline Sym atan2(T y, const Sym& x) { return atan2(Sym(y), x); }
+template <class T, class = typename std::enable_if<std::is_arithmetic<T>::value>::type>
+inline Sym atan2(const Sym& y, T x) { return atan2(y, Sym(x)); }
 inline Sym atan(const Sym& a) { return a.is_const() ? Sym(std::atan(a.c)) : un("atan", a); }
 inline Sym sinh(const Sym& a) { return a.is_const() ? Sym(std::sinh(a.c)) : un("sinh", a); }
 inline Sym cosh(const Sym& a) { return a.is_const() ? Sym(std::cosh(a.c)) : un("cosh", a); }
